@@ -24,6 +24,9 @@ ENGINES = [
          "configuration read-back, counting allocator ledger", serves_properties=["C14", "C15", "C16"]),
     dict(name="etstress", path="harness/etstress", kind_free_text="threaded stress with the real event thread over "
          "AF_UNIX socketpairs under ThreadSanitizer with seeded yield injection", serves_properties=["C07", "C11"]),
+    dict(name="defsock", path="harness/defsock", kind_free_text="the library's own socket functions over real descriptors "
+         "(closed loopback ports): link-time wraps of the libc socket calls keep a descriptor ledger and fail the k-th call "
+         "of one function; ASan+UBSan", serves_properties=["C10"]),
 ]
 
 # property -> registration.  Only properties whose check exists and is silent on the unchanged tree.
@@ -129,7 +132,9 @@ CHECKS = {
                      "call and 5 error kinds (exhaustive for those scenarios), plus seeded exploration: every descriptor "
                      "closed exactly once, none after destroy, no call on a closed/never-issued descriptor, per-socket UDP "
                      "query limit respected, watch/stop announcements well-formed and present before events are needed, "
-                     "legacy descriptor sets equal to the open sockets that matter.",
+                     "legacy descriptor sets equal to the open sockets that matter. Third stage (engine defsock, DESIGN.md §8.8): the "
+                     "built-in socket functions over real descriptors with the k-th libc call failing - every descriptor "
+                     "obtained through socket() closed exactly once, none open after ares_destroy().",
                 note="Descriptor numbers are never reused by the virtual layer; a failing close() releases the descriptor."),
     "C08": dict(engine="simnet", category="exploration", design_ref="DESIGN.md §4 C08",
                 technique="runtime monitoring in a deterministic simulator: provenance serial in every response + cache "
